@@ -361,45 +361,8 @@ def rule_dsconst(ctx, R, F):
             R.eq('asm %s == spec r%d' % (asm[i], i), 'src/asm/program_sshash_constants.inc', spec_consts[i], o.u64(o.sym(asm[i])))
         else:
             R.violation('asm %s' % asm[i], 'src/asm/program_sshash_constants.inc', expected='label present', found='missing')
-    R.rule('DS-ITEM', 'initDatasetItem follows spec 7.3: r0 = (item+1)*mul0, ri = r0 ^ addi, RANDOMX_CACHE_ACCESSES rounds of [cache line from registerValue & mask; SuperscalarHash i; xor the line; '
-           'next registerValue = r[addressRegister]], 64-byte result; getMixBlock masks the line index to the cache size', min_instances=6)
-    f = F.func('randomx::initDatasetItem')
-    ren = {p['id']: 'P%d' % i for i, p in enumerate(f['params'])}
-    with astq.renaming(ren):
-        body = [showv(s) for s in f['body']['s']]
-        inits = [showv(x) for x in walk(f['body']) if x['k'] == 'Assign' and show(x['l']).startswith('rl[')]
-    mul0 = F.const('randomx::superscalarMul0')
-    exp_inits = ['(rl[0] = ((P2 + 1) * %d))' % mul0] + ['(rl[%d] = (rl[0] ^ %d))' % (i, F.const('randomx::superscalarAdd%d' % i)) for i in range(1, 8)]
-    R.eq('register initialisation', '%s:%d' % (f['file'], f['line']), exp_inits, inits[:8])
-    loops = [x for x in f['body']['s'] if x['k'] == 'For']
-    from rules.driver import loop_trip
-    acc = int(F.macro('RANDOMX_CACHE_ACCESSES')['body'])
-    R.check(len(loops) == 1 and loop_trip(loops[0]) == acc, 'cache access rounds', '%s:%d' % (f['file'], f['line']), expected=acc, found=loop_trip(loops[0]) if loops else None)
-    if loops:
-        order = []
-        for c in calls(loops[0]['b']):
-            nm = c.get('name')
-            if nm in ('getMixBlock', 'executeSuperscalar', 'load64_native', 'getAddressRegister'):
-                order.append(nm)
-        R.eq('round order', loc(loops[0], f), ['getMixBlock', 'executeSuperscalar', 'load64_native', 'getAddressRegister'], order)
-        lv = loops[0]['init']['d'][0]['id']
-        with astq.renaming(dict(ren, **{lv: 'I'})):
-            progs = [show(x) for x in walk(loops[0]['b']) if x['k'] == 'Call' and x.get('opcall') == '[]' and 'programs' in show(x)]
-        R.check(progs == ['P0->programs[I]'], 'round i uses program i', loc(loops[0], f), expected=['P0->programs[I]'], found=progs)
-        xor = [x for x in walk(loops[0]['b']) if x['k'] == 'For']
-        R.check(len(xor) == 1 and loop_trip(xor[0]) == 8 and any(y['k'] == 'CAssign' and y['op'] == '^=' for y in walk(xor[0]['b'])), 'xor of the whole cache line', loc(loops[0], f), expected='8 x rl[q] ^= load64(mixBlock + 8q)', found=show(xor[0]['b']) if xor else None)
-    mc = [c for c in calls(f['body']) if c.get('name') == 'memcpy']
-    with astq.renaming(ren):
-        R.check(len(mc) == 1 and showv(mc[0]['a'][0]) == 'P1' and val(mc[0]['a'][2]) == 64, 'result copy', '%s:%d' % (f['file'], f['line']), expected='memcpy(out, rl, 64)', found=[showv(c) for c in mc])
-    g = F.func('randomx::getMixBlock')
-    cs_ = F.const('randomx::CacheSize')
-    ren = {p['id']: 'P%d' % i for i, p in enumerate(g['params'])}
-    d = [dd for x in walk(g['body']) if x['k'] == 'Decl' for dd in x['d']]
-    rets = [x for x in walk(g['body']) if x['k'] == 'Return']
-    with astq.renaming(ren):
-        rs = showv(rets[0]['e']) if rets else None
-    mask = cs_ // 64 - 1
-    R.check(rs == '(P1 + ((P0 & %d) * 64))' % mask and (mask + 1) * 64 <= cs_, 'getMixBlock', '%s:%d' % (g['file'], g['line']), expected='memory + (reg & %d) * 64, within CacheSize %d' % (mask, cs_), found=rs, rule='DS-ITEM')
+    from rules import dsitem
+    dsitem.rule_item(ctx, R, F, getattr(F, 'config', None) or 'K0')
 
 
 def rule_range(ctx, R, F):
